@@ -787,6 +787,84 @@ pub(crate) fn run(opts: &Opts, report: &mut Report) {
                 }
             }
         }
+        // ---- the same with ONE forged block among real ones: the honest peer then proves the real
+        // blocks and reports the forged hash as missing in the same answer; the forged body
+        // follows. A hash that was reported missing is not proven by the rest of the answer.
+        if chunk == 0 && scn == Scn::Filters {
+            let (probe, _) = build_with(&env, &w, params, scn, None);
+            let n_filters = probe
+                .queue
+                .iter()
+                .find(|m| kind_of(m) == "BlockFilters")
+                .and_then(|m| packed::BlockFilterMessage::from_slice(&m.data).ok())
+                .map(|m| match m.to_enum() {
+                    packed::BlockFilterMessageUnion::BlockFilters(m) => m.filters().len(),
+                    _ => 0,
+                })
+                .unwrap_or(0);
+            let mut old_sim = Some(probe);
+            for i in 0..n_filters {
+                let (mut sim, _) = c10::build_on(&env, &w, scn, old_sim.take());
+                let pos = match sim.queue.iter().position(|m| kind_of(m) == "BlockFilters") {
+                    Some(p) => p,
+                    None => break,
+                };
+                let honest = sim.queue.remove(pos).unwrap();
+                let m = match packed::BlockFilterMessage::from_slice(&honest.data).map(|x| x.to_enum()) {
+                    Ok(packed::BlockFilterMessageUnion::BlockFilters(m)) => m,
+                    _ => break,
+                };
+                let start: u64 = m.start_number().unpack();
+                let real = &w.main.blocks[(start as usize) + i];
+                let extra = crate::verif::txlib::build_tx(
+                    &[],
+                    &[packed::OutPoint::new(real.transactions()[0].hash(), 0)],
+                    &[crate::verif::txlib::OutSpec::lock(&env.scripts.a, 66_0000_0000)],
+                    0xe0 + i as u64,
+                );
+                let forged = real.as_advanced_builder().transaction(extra.clone()).build();
+                let mut hashes: Vec<packed::Byte32> = m.block_hashes().into_iter().collect();
+                hashes[i] = forged.hash();
+                let msg = packed::BlockFilterMessage::new_builder().set(m.clone().as_builder().block_hashes(hashes.pack()).build()).build();
+                let r = crate::verif::props::panics::catch(|| {
+                    sim.deliver_msg(crate::verif::driver::InFlight { proto: honest.proto.clone(), peer: honest.peer, data: msg.as_bytes(), note: format!("BlockFilters[hash of #{} forged]", start + i as u64) });
+                    // the honest answers to what the client asked (proofs: the forged hash is missing)
+                    for _ in 0..6 {
+                        match sim.queue.iter().position(|q| q.proto == crate::verif::net::Proto::LightClient) {
+                            Some(p) => sim.deliver(p),
+                            None => break,
+                        }
+                    }
+                    let sb = packed::SyncMessage::new_builder().set(packed::SendBlock::new_builder().block(forged.data()).build()).build();
+                    sim.deliver_msg(crate::verif::driver::InFlight { proto: crate::verif::net::Proto::Sync, peer: honest.peer, data: sb.as_bytes(), note: "SendBlock[forged]".into() });
+                    sim.converge(60);
+                });
+                report.count("forged_matched_block_runs", 1);
+                report.count("transitions", 1);
+                match r {
+                    Err(p) => report.violation(format!("abort/{}", p.site()), format!("{} [one forged matched block among real ones]", p.describe()), json!({"scenario": "Filters", "forgery": "one forged matched block", "position": i})),
+                    Ok(()) => {
+                        let mut bad = inv_committed(&sim, &w.main);
+                        {
+                            use crate::service::TransactionRpc;
+                            if let Ok(t) = sim.c().rpc_tx().get_transaction(extra.hash().unpack()) {
+                                if serde_json::to_value(&t).map(|v| v["status"] == "committed").unwrap_or(false) {
+                                    bad.push("get_transaction reports the forged transaction as committed".to_owned());
+                                }
+                            }
+                        }
+                        if !bad.is_empty() {
+                            report.violation(
+                                "uncommitted-data-stored/forged-matched-block/missing-hash-treated-as-proven".to_owned(),
+                                format!("BlockFilters (start {}) with the hash of block {} replaced by a forged twin; the honest blocks proof proves the others and reports the twin missing; its body follows: {}", start, start + i as u64, bad[0]),
+                                json!({"scenario": "Filters", "params": format!("{:?}", params), "spec": spec, "position": i, "broken_records": bad.iter().take(8).collect::<Vec<_>>()}),
+                            );
+                        }
+                    }
+                }
+                old_sim = Some(sim);
+            }
+        }
         // vacuity guard + honest control: finish the history honestly; the index must be
         // non-empty and committed
         if chunk == 0 && is_home {
